@@ -3605,8 +3605,12 @@ _dispatch_lane_drain(dispatch_lane_t dq, dispatch_invoke_context_t dic,
 			break;
 		}
 		if (likely(flags & DISPATCH_INVOKE_WORKLOOP_DRAIN)) {
-			dispatch_workloop_t dwl = (dispatch_workloop_t)_dispatch_get_wlh();
-			if (unlikely(_dispatch_queue_max_qos(dwl) > dwl->dwl_drained_qos)) {
+			// without kevent workloops the draining thread is not bound to
+			// the workloop: its wlh is DISPATCH_WLH_ANON, not an object
+			dispatch_wlh_t wlh = _dispatch_get_wlh();
+			dispatch_workloop_t dwl = (dispatch_workloop_t)wlh;
+			if (wlh != DISPATCH_WLH_ANON &&
+					unlikely(_dispatch_queue_max_qos(dwl) > dwl->dwl_drained_qos)) {
 				break;
 			}
 		}
